@@ -1,3 +1,210 @@
-"""Translator: regenerates the declarative tables of the model from /repo's current source."""
+"""Translator: regenerates the declarative tables of the Lean model from /repo's *current* source.
+
+Everything here is obtained by introspection and behavioural probing of the real classes (not by parsing source
+text), so a harmless rewrite of the source leaves the tables unchanged while a change of behaviour changes them:
+
+  operatorTable   Algebra field -> (codegen function __name__, unary?, uses mathstr?)
+  mvDispatch      MultiVector method/dunder -> (operator, operands swapped?)      [recording stubs]
+  tapeDispatch    TapeRecorder method/dunder -> (operator, operands swapped?)     [recording stubs]
+  compareFields   dataclass fields of Algebra with compare=True
+  namedBases      Algebra.fromname bases with (p, q, r)
+  invertGrades    grade sets (mod 4) negated by reverse / involute / conjugate
+
+The output is lean/Kingdon/Generated/Tables.lean; it is rewritten only when its content changes, so Lake rebuilds
+(and re-proves every `decide` over the tables) exactly when the tables changed.
+"""
+import os, sys, dataclasses
+
+VERIF = os.path.dirname(os.path.dirname(os.path.abspath(__file__)))
+REPO = os.environ.get('VERIF_REPO', '/repo')
+OUT = os.path.join(VERIF, 'lean', 'Kingdon', 'Generated', 'Tables.lean')
+
+BINARY_PROBES = ['__mul__', '__rmul__', 'gp', '__xor__', '__rxor__', 'op', '__or__', '__ror__', 'ip', '__and__', '__rand__', 'rp',
+                 '__rshift__', '__rrshift__', 'sw', '__matmul__', '__rmatmul__', 'proj', '__add__', '__radd__', 'add',
+                 '__sub__', '__rsub__', 'sub', '__truediv__', '__rtruediv__', 'div', 'cp', 'acp', 'lc', 'rc', 'sp']
+UNARY_PROBES = ['__neg__', 'neg', '__invert__', 'reverse', 'involute', 'conjugate', 'inv', 'sqrt', 'normsq', 'polarity', 'unpolarity',
+                'hodge', 'unhodge', 'outerexp', 'outersin', 'outercos', 'outertan']
+
+
+def lstr(s):
+    return '"' + s.replace('\\', '\\\\').replace('"', '\\"') + '"'
+
+
+def probe_mv():
+    """call every method of the real MultiVector on an algebra whose operator dicts are recording stubs"""
+    if REPO not in sys.path:
+        sys.path.insert(0, REPO)
+    from kingdon import Algebra, MultiVector
+    alg = Algebra(2)
+    rec = []
+
+    class Stub:
+        def __init__(self, name):
+            self.name = name
+        def __call__(self, *args):
+            rec.append((self.name, args))
+            return 'RESULT'
+    for name in list(alg.registry):
+        setattr(alg, name, Stub(name))
+    a = MultiVector.fromkeysvalues(alg, (1,), [2])
+    b = MultiVector.fromkeysvalues(alg, (2,), [3])
+    table = []
+    for m in BINARY_PROBES:
+        rec.clear()
+        try:
+            getattr(a, m)(b)
+        except Exception as e:
+            table.append((m, 'raises:' + type(e).__name__, False, 0))
+            continue
+        if len(rec) == 1 and len(rec[0][1]) == 2:
+            opn, args = rec[0]
+            swapped = args[0] is b and args[1] is a
+            straight = args[0] is a and args[1] is b
+            table.append((m, opn if (swapped or straight) else 'other', swapped, 1))
+        else:
+            table.append((m, 'composite', False, len(rec)))
+    for m in UNARY_PROBES:
+        rec.clear()
+        try:
+            getattr(a, m)()
+        except Exception as e:
+            table.append((m, 'raises:' + type(e).__name__, False, 0))
+            continue
+        if len(rec) == 1 and len(rec[0][1]) == 1 and rec[0][1][0] is a:
+            table.append((m, rec[0][0], False, 1))
+        else:
+            table.append((m, 'composite', False, len(rec)))
+    return table
+
+
+def probe_tape():
+    """the same surface on TapeRecorder: which operator dictionary is consulted, in which operand order"""
+    from kingdon import Algebra
+    from kingdon.taperecorder import TapeRecorder
+    alg = Algebra(2)
+    rec = []
+
+    class F:
+        def __init__(self, n): self.__name__ = n
+
+    class StubDict:
+        def __init__(self, name): self.name = name
+        def __getitem__(self, keys):
+            rec.append((self.name, keys))
+            return ((7,), F(f'{self.name}!'))
+    for name in list(alg.registry):
+        setattr(alg, name, StubDict(name))
+    table = []
+    for m in BINARY_PROBES:
+        rec.clear()
+        a = TapeRecorder(alg, 'A', (1,))
+        b = TapeRecorder(alg, 'B', (2,))
+        try:
+            r = getattr(a, m)(b)
+        except Exception as e:
+            table.append((m, 'raises:' + type(e).__name__, False, 0))
+            continue
+        if len(rec) == 1:
+            opn, keys = rec[0]
+            swapped = keys == ((2,), (1,)) and r.expr == f'{opn}!(B, A)'
+            straight = keys == ((1,), (2,)) and r.expr == f'{opn}!(A, B)'
+            table.append((m, opn if (swapped or straight) else 'other', swapped, 1))
+        else:
+            table.append((m, 'composite', False, len(rec)))
+    for m in UNARY_PROBES:
+        rec.clear()
+        a = TapeRecorder(alg, 'A', (1,))
+        try:
+            r = getattr(a, m)()
+        except Exception as e:
+            table.append((m, 'raises:' + type(e).__name__, False, 0))
+            continue
+        if len(rec) == 1 and rec[0][1] == (1,) and r.expr == f'{rec[0][0]}!(A)':
+            table.append((m, rec[0][0], False, 1))
+        else:
+            table.append((m, 'composite', False, len(rec)))
+    return table
+
+
+def probe_invert_grades():
+    import kingdon.codegen as cg
+    res = []
+    for nm in ('codegen_reverse', 'codegen_involute', 'codegen_conjugate'):
+        class X:
+            def items(self):
+                return [(k, ('v', k)) for k in (0, 1, 3, 7, 15, 31, 63, 127)]   # grades 0..7
+
+        class V(tuple):
+            pass
+        # values that record negation
+        class Val:
+            def __init__(self, neg=False): self.neg = neg
+            def __neg__(self): return Val(not self.neg)
+
+        class XX:
+            def items(self):
+                return [(k, Val()) for k in (0, 1, 3, 7, 15, 31, 63, 127)]
+        out = getattr(cg, nm)(XX())
+        flipped = sorted({bin(k).count('1') % 4 for k, v in out.items() if v.neg})
+        res.append((nm.replace('codegen_', ''), flipped))
+    return res
+
+
+def generate():
+    if REPO not in sys.path:
+        sys.path.insert(0, REPO)
+    from kingdon import Algebra
+    from kingdon.codegen import mathstr
+    from kingdon.operator_dict import UnaryOperatorDict
+    lines = ['/- GENERATED by harness/extract_tables.py from the current source of /repo — do not edit. -/',
+             'namespace Kingdon.Gen', '']
+    ops = []
+    for f in dataclasses.fields(Algebra):
+        if 'codegen' in f.metadata:
+            ops.append((f.name, f.metadata['codegen'].__name__, issubclass(f.type, UnaryOperatorDict) if isinstance(f.type, type) else 'Unary' in str(f.type),
+                        f.metadata.get('codegen_symbolcls') is mathstr))
+    lines.append('/-- Algebra operator fields: (field, codegen __name__, unary, generated over mathstr) -/')
+    lines.append('def operatorTable : List (String × String × Bool × Bool) := [')
+    lines.append(',\n'.join(f'  ({lstr(a)}, {lstr(b)}, {str(bool(c)).lower()}, {str(bool(d)).lower()})' for a, b, c, d in ops))
+    lines.append(']\n')
+    for nm, tab in (('mvDispatch', probe_mv()), ('tapeDispatch', probe_tape())):
+        lines.append(f'/-- method -> (operator consulted, operands swapped, number of operator calls) -/')
+        lines.append(f'def {nm} : List (String × String × Bool × Nat) := [')
+        lines.append(',\n'.join(f'  ({lstr(m)}, {lstr(o)}, {str(bool(s)).lower()}, {n})' for m, o, s, n in tab))
+        lines.append(']\n')
+    cmpf = [f.name for f in dataclasses.fields(Algebra) if f.compare]
+    lines.append('/-- dataclass fields of Algebra that take part in `==` -/')
+    lines.append('def compareFields : List String := [' + ', '.join(lstr(x) for x in cmpf) + ']\n')
+    named = []
+    for nm in ('2DPGA', '3DPGA', 'STAP'):
+        try:
+            a = Algebra.fromname(nm)
+            names = [[int(ch, 16) for ch in b[1:]] for b in a.canon2bin]
+            named.append((nm, a.p, a.q, a.r, [int(s) for s in a.signature], names))
+        except Exception:
+            pass
+    lines.append('/-- Algebra.fromname: (name, p, q, r, signature, basis names) -/')
+    lines.append('def namedBases : List (String × Nat × Nat × Nat × List Int × List (List Nat)) := [')
+    lines.append(',\n'.join(f'  ({lstr(n)}, {p}, {q}, {r}, [{", ".join(map(str, sg))}], [{", ".join("[" + ", ".join(map(str, b)) + "]" for b in names)}])'
+                           for n, p, q, r, sg, names in named))
+    lines.append(']\n')
+    inv = probe_invert_grades()
+    lines.append('/-- grades mod 4 whose coefficients are negated -/')
+    lines.append('def invertGrades : List (String × List Nat) := [' + ', '.join(f'({lstr(n)}, [{", ".join(map(str, g))}])' for n, g in inv) + ']\n')
+    lines.append('end Kingdon.Gen')
+    return '\n'.join(lines) + '\n'
+
+
 def write_if_changed():
+    txt = generate()
+    os.makedirs(os.path.dirname(OUT), exist_ok=True)
+    old = open(OUT).read() if os.path.exists(OUT) else None
+    if old != txt:
+        with open(OUT, 'w') as f:
+            f.write(txt)
+        return True
     return False
+
+
+if __name__ == '__main__':
+    print('changed' if write_if_changed() else 'unchanged')
